@@ -42,6 +42,7 @@ Atom3(e, m) ==
   CASE e.f = "bound" -> IF e.v \in DOMAIN m THEN "t" ELSE "f"
     [] e.f = "nbound" -> IF e.v \notin DOMAIN m THEN "t" ELSE "f"
     [] e.f \in {"eq", "ne"} -> IF e.v \notin DOMAIN m THEN "e" ELSE IF (m[e.v] = e.c) = (e.f = "eq") THEN "t" ELSE "f"
+    [] e.f \in {"in", "nin"} -> IF e.v \notin DOMAIN m THEN "e" ELSE IF (m[e.v] \in Rng(e.cs)) = (e.f = "in") THEN "t" ELSE "f"
     [] e.f \in {"lt", "gt"} -> IF e.v \notin DOMAIN m \/ m[e.v] \notin 31..39 \/ e.c \notin 31..39 THEN "e"
                                ELSE IF (IF e.f = "lt" THEN m[e.v] < e.c ELSE m[e.v] > e.c) THEN "t" ELSE "f"
 Ev3(e, m) ==
@@ -71,27 +72,40 @@ EvalElems(D, es, i, acc) ==
        EvalElems(D, es, i + 1,
          CASE e.k = "tp" -> Join(acc, SetSeq(MatchTP(D, e)))
            [] e.k = "opt" -> LeftJoin(acc, EvalElems(D, NonFilters(e.g), 1, <<Empty>>), FiltersOf(e.g))
-           [] e.k = "union" -> Join(acc, EvalGroup(D, e.a) \o EvalGroup(D, e.b)))
+           [] e.k = "union" -> Join(acc, EvalGroup(D, e.a) \o EvalGroup(D, e.b))
+           \* MINUS: a solution goes when some solution of the right side is compatible with it and shares a variable with it
+           [] e.k = "minus" -> LET R == EvalGroup(D, e.g) IN
+                               SelectSeq(acc, LAMBDA m : ~\E j \in DOMAIN R : Compatible(m, R[j]) /\ (DOMAIN m \cap DOMAIN R[j]) # {})
+           \* VALUES ?v { c1 c2 ... }: a join with inline solutions
+           [] e.k = "values" -> Join(acc, [j \in DOMAIN e.cs |-> (e.v :> e.cs[j])]))
 \* ---- result forms.  A row is a sequence over the selected variables; an unbound variable is 0.
 RowOf(sel, m) == [i \in DOMAIN sel |-> IF sel[i] \in DOMAIN m THEN m[sel[i]] ELSE 0]
 Rows(D, q) == LET sols == EvalGroup(D, q.where) IN [i \in DOMAIN sols |-> RowOf(q.sel, sols[i])]
 BagOf(s) == [r \in Rng(s) |-> Cardinality({i \in DOMAIN s : s[i] = r})]
 SubBag(a, b) == \A r \in DOMAIN a : r \in DOMAIN b /\ a[r] <= b[r]
 Min2(a, b) == IF a < b THEN a ELSE b
+Max2(a, b) == IF a > b THEN a ELSE b
 \* ORDER BY ?v [DESC] (v is one of the selected variables, bound in every solution, of one kind - so term numbers order
-\* like the terms) with an optional LIMIT: the rows are sorted by the key, they are a sub-bag of the solutions (of the distinct
-\* solutions under DISTINCT) of the right size, and no omitted solution sorts strictly before the last row returned.
+\* like the terms) with optional OFFSET and LIMIT: the rows are sorted by the key, they are a sub-bag of the solutions (of the distinct
+\* solutions under DISTINCT) of the right size, and for every key value exactly as many rows carry it as the window
+\* offset+1 .. offset+limit cuts out of that key's run of positions in a sorted arrangement.
 HasOrder(q) == "order" \in DOMAIN q
 OrderedOk(q, exp0, rows) ==
   LET exp == IF q.distinct THEN SetSeq(Rng(exp0)) ELSE exp0
       k == CHOOSE i \in DOMAIN q.sel : q.sel[i] = q.order.v
       before(a, b) == IF q.order.desc THEN a[k] > b[k] ELSE a[k] < b[k]
-      want == IF q.limit < 0 THEN Len(exp) ELSE Min2(q.limit, Len(exp))
+      off == IF "offset" \in DOMAIN q THEN q.offset ELSE 0
+      rest == IF Len(exp) > off THEN Len(exp) - off ELSE 0
+      want == IF q.limit < 0 THEN rest ELSE Min2(q.limit, rest)
       be == BagOf(exp)  br == BagOf(rows)
+      \* in any sorted arrangement the solutions with key c occupy positions lt(c)+1 .. lt(c)+cnt(c); the window is off+1 .. off+want
+      lt(c) == Cardinality({i \in DOMAIN exp : IF q.order.desc THEN exp[i][k] > c ELSE exp[i][k] < c})
+      cnt(c) == Cardinality({i \in DOMAIN exp : exp[i][k] = c})
+      inwin(c) == LET lo == Max2(lt(c), off)  hi == Min2(lt(c) + cnt(c), off + want) IN IF hi > lo THEN hi - lo ELSE 0
   IN /\ Len(rows) = want
      /\ \A i \in 1..(Len(rows) - 1) : ~before(rows[i + 1], rows[i])
      /\ SubBag(br, be)
-     /\ (rows # <<>> => \A r \in DOMAIN be : (IF r \in DOMAIN br THEN be[r] > br[r] ELSE TRUE) => ~before(r, rows[Len(rows)]))
+     /\ \A c \in {exp[i][k] : i \in DOMAIN exp} : Cardinality({i \in DOMAIN rows : rows[i][k] = c}) = inwin(c)
 \* SELECT ?g (COUNT( * ) AS ?c) ... GROUP BY ?g  (?g bound in every solution): one row per value of ?g with its count
 GroupOk(D, q, rows) ==
   LET sols == EvalGroup(D, q.where)
@@ -99,6 +113,21 @@ GroupOk(D, q, rows) ==
   IN /\ Len(rows) = Cardinality(keys)
      /\ {rows[i][1] : i \in DOMAIN rows} = keys
      /\ \A i \in DOMAIN rows : rows[i][2] = Cardinality({j \in DOMAIN sols : sols[j][q.group] = rows[i][1]})
+\* as-is on the pinned tree: the translator drops VALUES blocks (sparql_translator.rs InlineData -> Empty).  StripValues gives the
+\* query the engine actually evaluates, so that a wrong answer to a query with VALUES is attributed to that and nothing else.
+RECURSIVE StripG(_)
+StripG(g) ==
+  LET keep == SelectSeq(g, LAMBDA x : x.k # "values") IN
+  [i \in DOMAIN keep |->
+     CASE keep[i].k = "opt" -> [keep[i] EXCEPT !.g = StripG(@)]
+       [] keep[i].k = "minus" -> [keep[i] EXCEPT !.g = StripG(@)]
+       [] keep[i].k = "union" -> [keep[i] EXCEPT !.a = StripG(@), !.b = StripG(@)]
+       [] OTHER -> keep[i]]
+RECURSIVE HasValuesG(_)
+HasValuesG(g) == \E i \in DOMAIN g : \/ g[i].k = "values"
+                                     \/ (g[i].k \in {"opt", "minus"} /\ HasValuesG(g[i].g))
+                                     \/ (g[i].k = "union" /\ (HasValuesG(g[i].a) \/ HasValuesG(g[i].b)))
+StripValues(q) == [q EXCEPT !.where = StripG(@)]
 Agrees(D, q, rows) ==
   LET exp == Rows(D, q) IN
   IF "group" \in DOMAIN q THEN GroupOk(D, q, rows)
